@@ -44,6 +44,8 @@ type lifeCase struct {
 	// HandlerMs: every handler takes this long; SdCtxMs: the context given to Shutdown expires after this long
 	HandlerMs int `json:"handlerMs"`
 	SdCtxMs   int `json:"sdCtxMs"`
+	// SdRetry: a Shutdown that gave up (context expired) is followed by a second, patient one
+	SdRetry bool `json:"sdRetry"`
 }
 
 type lifeWorld struct {
@@ -317,6 +319,22 @@ func runLife(w *writer, c *lifeCase) {
 					kind = "ctx"
 				}
 				lw.log(Ev{"ev": "shutdown.ret", "err": kind, "ms": int(time.Since(t0).Milliseconds())})
+				if c.SdRetry && kind == "ctx" {
+					// the application tries again, this time with patience
+					lw.log(Ev{"ev": "op", "a": "shutdown", "p": 0})
+					rctx, rcancel := context.WithTimeout(context.Background(), 2*time.Second)
+					t1 := time.Now()
+					err := srv.Shutdown(rctx)
+					rcancel()
+					kind = "other"
+					switch {
+					case err == nil:
+						kind = "nil"
+					case errors.Is(err, context.DeadlineExceeded):
+						kind = "ctx"
+					}
+					lw.log(Ev{"ev": "shutdown.ret", "err": kind, "ms": int(time.Since(t1).Milliseconds())})
+				}
 				close(sdDone)
 			}()
 		})
